@@ -12,7 +12,8 @@
    (c) hunt for the refuted clause (synchronize outside the mutex -> torn snapshot)            [known finding when it hits]
    (e) save/load of simulation B while simulation A's server thread handles requests (descriptor double close) [known finding when it hits]
    (f) a heartbeat that also writes in the prologue call; (g) sim.steps(n) next to a serving simulation   [known findings]
-   (d) -DAVX512 build: two WHFast512 simulations alternated vs separate                        [known finding]
+   (d) -DAVX512 build: two WHFast512 simulations alternated in one thread vs separate (fixed by /repo 85499fd: regression guard)
+       and stepped concurrently from two threads vs separate                                   [known finding]
 """
 import json, os, re, subprocess, sys, time
 from concurrent.futures import ThreadPoolExecutor
@@ -181,9 +182,9 @@ def run(ctx):
     jobs.append(("fdclose", libdir, "fdclose", {"seed": ctx.rng.randint(1, 10 ** 6), "N": 3000, "clients": 3, "seconds": ctx.scale(4, 12)}, 200))
     if libavx:
         pw = {"seed": ctx.rng.randint(1, 10 ** 6), "steps": ctx.rng.randint(10, 40),
-              "a": [1.0, 0], "b": [round(ctx.rng.uniform(1.3, 2.5), 3), 0]}
+              "a": [1.0, 0], "b": [round(ctx.rng.uniform(1.3, 2.5), 3), 0], "thread_steps": ctx.scale(20000, 100000)}
         jobs.append(("w512:mass", libavx, "w512", pw, 120))
-        pw2 = dict(pw, a=[1.0, 1], b=[1.0, 0], seed=pw["seed"] + 1)
+        pw2 = dict(pw, a=[1.0, 1], b=[1.0, 0], seed=pw["seed"] + 1, thread_steps=0)
         jobs.append(("w512:gr", libavx, "w512", pw2, 120))
     with ThreadPoolExecutor(max_workers=int(os.environ.get("VERIF_C19_PAR", "4"))) as ex:
         results = list(ex.map(lambda j: (j, drive(j[1], j[2], j[3], j[4])), jobs))
@@ -292,11 +293,20 @@ def run(ctx):
             ctx.case(key=("w512", name))
             ctx.obligation("validation: %s control (two identical WHFast512 simulations alternated) unaffected" % name, res["control_equal"], json.dumps(res))
             if not (res["a_equal"] and res["b_equal"]):
-                ctx.violation("whfast512:file-scope-statics", dict(replay, result=res), True,
+                ctx.violation("whfast512:sequential-alternation", dict(replay, result=res), True,
                               "two WHFast512 simulations with different stellar mass / gr_potential alternated step by step in ONE thread differ "
-                              "from the same simulations run separately (per-simulation constants in file-scope statics)")
+                              "from the same simulations run separately (constants_owner check of /repo 85499fd not effective)")
             else:
-                ctx.extra.setdefault("w512_no_difference", []).append(name)
+                ctx.extra.setdefault("w512_sequential_alternation_ok", []).append(name)
+            thr = res.get("threads")
+            if thr:
+                ctx.evaluations += 2
+                ctx.case(key=("w512-threads", name))
+                ctx.extra.setdefault("w512_threads", []).append(thr)
+                if not (thr["a_equal"] and thr["b_equal"]):
+                    ctx.violation("whfast512:file-scope-statics", dict(replay, result=res), True,
+                                  "two WHFast512 simulations with different stellar mass stepped CONCURRENTLY from two threads differ from the same "
+                                  "simulations run separately (per-simulation constants in file-scope statics shared by all threads)")
     ctx.obligation("validation(real threads): server scenarios actually served snapshots (%d)" % served_total, served_total > 0, "")
     ctx.extra["input_distribution"] = {"conc_simulations": len(pc["specs"]), "conc_rounds": pc["rounds"],
                                        "server_integrators": [j[0] for j in jobs if j[2] == "server"], "snapshots_served": served_total}
